@@ -35,6 +35,7 @@ def shards(tier, seed):
         for j in range(2):
             out.append({'name': f'{backing}{j}', 'backing': backing, 'mod': 2, 'rem': j,
                         'N': lim['ND'] // 2, 'all_i': 10})
+    out.append({'name': 'large', 'backing': 'large'})
     return out
 
 
@@ -211,6 +212,8 @@ def check_illegal_shard(ld, n, k, backing, res):
 
 
 def run_shard(spec, res):
+    if spec['backing'] == 'large':
+        return run_large(spec, res)
     ld = import_lazy_dataset()
     cnt = 0
     for n in range(0, spec['N'] + 1):
@@ -228,11 +231,31 @@ def run_shard(spec, res):
                             'parts': [list(p) for p in ds.split(k)]})
 
 
+LARGE = (255, 256, 257, 511, 1000, 4099)
+
+
+def run_large(spec, res):
+    """Lengths around 2^8 .. 2^12 with a spread of shard counts (including
+    k = n, n - 1, just above and below the powers of two)."""
+    ld = import_lazy_dataset()
+    for n in LARGE:
+        ks = sorted({1, 2, 3, 7, 16, 127, 128, 129, 255, 256, 257, n // 2, n - 1, n, n + 1})
+        for backing in ('list', 'dict', 'dict-shuffled-warm'):
+            if backing != 'list' and n > 1000:
+                continue
+            for k in ks:
+                check_case(ld, n, k, backing, 0, res)
+                res.count('large_cases')
+
+
 def finalize(res, tier):
     lim = LIMITS[tier]
     expected = sum(n + 4 for n in range(lim['N'] + 1)) + \
         sum(n + 4 for n in range(lim['ND'] + 1)) + \
         (4 + len(WARM)) * sum(n + 4 for n in range(lim['ND'] // 2 + 1))
+    expected += res.counters.get('large_cases', 0)
+    if res.counters.get('large_cases', 0) == 0:
+        res.inconclusive_because('no large case ran')
     if res.evaluations != expected:
         res.inconclusive_because(
             f'enumerated {res.evaluations} (n,k) cases, expected {expected}')
